@@ -96,7 +96,7 @@ BOUND = ('hash width 8 bits (split_bitstring over 1 byte) or 16 bits (number_spl
 GROUPS = (
     G('insert_pair', 'h_insert_pair', ['C28', 'C17'], [r'C28\.insert_absent_succeeds', r'C28\.insert_present_fails', r'C17\.no_element_lost', r'C17\.size'], INS, cfgs=((1, 2), (1, 4)),
       bounded=BOUND % 'two inserts with symbolic 8-bit hashes (the second may share any prefix with the first, or be equal), then lookups')
-    + G('insert_pair', 'h_insert_pair', ['C28', 'C17'], [r'C28\.insert_absent_succeeds', r'C28\.insert_present_fails', r'C17\.no_element_lost', r'C17\.size'], INS, cfgs=((16, 4), (16, 3), (16, 2), (2, 4)), tier='thorough',
+    + G('insert_pair', 'h_insert_pair', ['C28', 'C17'], [r'C28\.insert_absent_succeeds', r'C28\.insert_present_fails', r'C17\.no_element_lost', r'C17\.size'], INS, cfgs=((16, 4), (16, 3), (2, 4)), tier='thorough',      # (16, 2): six levels, formula beyond the memory limit - not run
         bounded=BOUND % 'two inserts with symbolic 16-bit hashes, then lookups')
     + G('insert_triple', 'h_insert_triple', ['C28', 'C17'], [r'C28\.insert_absent_succeeds', r'C17\.no_element_lost'], INS, cfgs=((1, 2), (1, 4)), tier='thorough', extra_nodes=1,
         bounded=BOUND % 'three inserts with symbolic 8-bit hashes, then lookups')
